@@ -11,6 +11,7 @@ import (
 	"sync/atomic"
 	"time"
 
+	"github.com/safing/portbase/log"
 	"github.com/safing/portbase/zzverif/vsched"
 )
 
@@ -63,6 +64,9 @@ var c15 *c15state
 // VerifC15 builds the scenario.
 func VerifC15(p C15Params) *vsched.Scenario {
 	sc := &vsched.Scenario{Name: p.Name(), MaxSteps: 80000}
+	if strings.Contains(strings.Join(p.Tasks, ","), "chatty") {
+		sc.MaxSteps = 3000000
+	}
 	sc.Reset = func() {
 		VerifResetWorld()
 		c15 = &c15state{ran: make([]int, len(p.Tasks)), returned: make([]bool, len(p.Tasks)), released: make([]bool, len(p.Tasks))}
@@ -109,9 +113,14 @@ func VerifC15(p C15Params) *vsched.Scenario {
 					if s.gauge > s.maxGauge {
 						s.maxGauge = s.gauge
 					}
-					// the limit clause: before shutdown, no high-priority microtask running, no maximum delay expired (clock frozen at 0)
-					if s.gauge > p.Limit && s.high == 0 && !s.shutdown && vsched.Now() == 0 {
-						verifFail("at-most-limit-run-concurrently", "limit-exceeded", "%d medium/low priority microtasks execute at the same time with limit %d", s.gauge, p.Limit)
+					// the limit clause: before shutdown, no high-priority microtask running, and this microtask's own maximum
+					// delay (1 s medium, 3 s low; the clock only moves when nothing can run) has not expired
+					own := defaultMediumPriorityMaxDelay
+					if prio == "l" {
+						own = defaultLowPriorityMaxDelay
+					}
+					if s.gauge > p.Limit && s.high == 0 && !s.shutdown && vsched.Now() < own {
+						verifFail("at-most-limit-run-concurrently", "limit-exceeded", "%d medium/low priority microtasks execute at the same time with limit %d (clock %s, maximum delay of the one that just began: %s)", s.gauge, p.Limit, vsched.Now(), own)
 					}
 				}
 				vsched.Ev(fmt.Sprintf("begin:%d", k))
@@ -131,6 +140,12 @@ func VerifC15(p C15Params) *vsched.Scenario {
 				switch outcome {
 				case "err":
 					return wantErr
+				case "chatty":
+					// more lines than the log buffer holds, while this microtask occupies its slot
+					for i := 0; i < 1100; i++ {
+						log.Info(fmt.Sprintf("chatty microtask %d line %d", k, i))
+					}
+					return nil
 				case "canceled":
 					return context.Canceled
 				case "wrapcanceled":
@@ -143,7 +158,7 @@ func VerifC15(p C15Params) *vsched.Scenario {
 		}
 		checkErr := func(k int, outcome string, err error) {
 			switch outcome {
-			case "ok":
+			case "ok", "chatty":
 				if err != nil {
 					verifFail("blocking-variant-returns-the-error", "unexpected-error", "microtask %d returned %v, want nil", k, err)
 				}
@@ -277,6 +292,10 @@ func VerifC15(p C15Params) *vsched.Scenario {
 				vsched.Advance(5 * time.Second)
 				break
 			}
+		}
+		if atomic.LoadInt32(microTasks) != 0 {
+			// a microtask that is still inside (e.g. waiting for the log writer's 10 ms pause) gets the time to finish
+			vsched.Advance(time.Second)
 		}
 		vsched.Ev("all-submitted-and-idle")
 		for k := range p.Tasks {
